@@ -228,6 +228,21 @@ CHECKS["C13"] = {
     ],
 }
 
+FRT = "./fullrt/"
+CHECKS["C16"] = {
+    "engine": "simnet",
+    "level": "exploration",
+    "technique": "property-based testing (rapid) with a brute-force nearest-K / IP-group reference over the crawled set, schedule control of the crawl swap through a build-tagged hook, and generated crawl topologies against a reachability oracle",
+    "level_text": "Generated crawled sets, keys, K and diversity limits are installed through a fake crawler and the real GetClosestPeers is compared with a brute-force reference; the crawl-result swap is paused at hook points while a reader runs; "
+                  "generated referral graphs with failure patterns drive the real crawler against a reachability/exactly-once oracle; every operation is run on an empty table and with missing options. Exploration.",
+    "level_note": "IP groups are /16 blocks of public IPv4 addresses by construction; the swap race needs the 'verif' hook (fullrt/verif_hook_on.go); the simulated sender stands in for the network.",
+    "parts": [
+        {"part": "closest", "pkg": FRT, "test": "TestVerif_C16_Closest", "quick": 1500, "thorough": 25000},
+        {"part": "swap", "pkg": FRT, "test": "TestVerif_C16_Swap", "quick": 300, "thorough": 3000, "shards": 4},
+        {"part": "empty", "pkg": FRT, "test": "TestVerif_C16_Empty", "quick": 300, "thorough": 3000},
+    ],
+}
+
 MANIFEST_HEAD = {
     "version": 1,
     "setup_cmd": "bin/check --setup",
@@ -235,7 +250,7 @@ MANIFEST_HEAD = {
         "guard": "verif",
         "enable": "go test -tags verif (harness files are injected with -overlay/-modfile by bin/check; /repo itself is not edited)",
         "baseline_off_cmd": "cd /repo && go test -mod=mod -vet=off -count=1 -timeout 25m ./...",
-        "source_commits": [],
+        "source_commits": ["2e56636"],
         "add_only": True,
     },
     "engines": [
